@@ -27,7 +27,7 @@ OUTSIDE = ["more than 2 (quick) / 4 (thorough) ACs, more than one (quick) / two 
            "a final answer arriving at exactly the 5 s limit (tie)"]
 ASSUMPTIONS = ["foreign-addressed extra frames are another client's command or request (addressed to the console, from 0xB1), not a forged answer of the kind currently awaited"]
 
-EXTRA_KINDS = ("unsolicited_status", "stale_duplicate", "unknown_type", "foreign_command", "foreign_request", "partial_status")
+EXTRA_KINDS = ("unsolicited_status", "stale_duplicate", "unknown_type", "foreign_command", "foreign_request", "partial_status", "foreign_answer")
 
 
 def bounds(tier):
@@ -110,6 +110,30 @@ def _check_model(ctx, rig, inst, detail):
 def _extra_frame(g, kind, inst, console, step):
     if kind == "unsolicited_status":
         return console.ac_status_frame(pid=0x55)
+    if kind == "foreign_answer":
+        # the console's answer to ANOTHER client (addressed to 0xB7) of the kind awaited at this step, describing less than
+        # the installation (that client asked about the last AC / zone only)
+        import copy
+        keep = console.inst
+        alt = copy.copy(keep)
+        lz = max(keep.zones) if keep.zones else None
+        la = keep.acs[-1]["number"]
+        alt.zones = {lz: keep.zones[lz]} if lz is not None else {}
+        alt.acs = [a for a in keep.acs if a["number"] == la]
+        alt.ac_status = {la: keep.ac_status[la]}
+        alt.zone_status = {lz: keep.zone_status[lz]} if lz is not None else {}
+        alt.timers = {la: keep.timers[la]}
+        console.inst = alt
+        try:
+            raws = console.answer_frames(step, {"pid": 0x5C, "data": [0xFF, 0x10, 0]})
+        finally:
+            console.inst = keep
+        if not raws:
+            return framing.frame(g, 0xB7, 0x80, 0x5C, 0x77, [1])
+        raw = [int(b) for b in raws[0]]
+        hl = framing.header_len(g)
+        cs = framing.covered_start(g)
+        return framing.frame(g, 0xB7, raw[cs + 1], raw[cs + 2], raw[cs + 3], raw[hl:-2])
     if kind == "partial_status":
         # an unsolicited report about the last AC only (the console sends one whenever something changes), with the values the
         # console also gives in its full answer
